@@ -15,10 +15,13 @@ def make_model(r, kind):
     from photutils.psf import CircularGaussianPRF, GaussianPSF, ImagePSF
     if kind == 'gauss2d':
         return Gaussian2D(amplitude=1, x_mean=0, y_mean=0, x_stddev=1.3, y_stddev=0.9, theta=0.4), ('x_mean', 'y_mean', 'amplitude')
+    # model_shape / psf_shape override the bounding box: with a small bbox_factor the requested windows extend well beyond the box
+    # (seed C18-r13 evaluated the model with_bounding_box=True inside the window)
+    small = {} if r.random() < 0.5 else {'bbox_factor': r.choice([1.0, 2.0])}
     if kind == 'prf':
-        return CircularGaussianPRF(flux=1, fwhm=2.1), ('x_0', 'y_0', 'flux')
+        return CircularGaussianPRF(flux=1, fwhm=2.1, **small), ('x_0', 'y_0', 'flux')
     if kind == 'gausspsf':
-        return GaussianPSF(flux=1, x_fwhm=2.5, y_fwhm=1.7, theta=30), ('x_0', 'y_0', 'flux')
+        return GaussianPSF(flux=1, x_fwhm=2.5, y_fwhm=1.7, theta=30, **small), ('x_0', 'y_0', 'flux')
     if kind == 'imagepsf':
         yy, xx = np.mgrid[-4:5, -4:5]
         d = np.exp(-(xx ** 2 + yy ** 2) / 4.0)
